@@ -479,6 +479,78 @@ def exhaustive(prop):
             if shape == "stop2sig" and sig != "none": ops.append("raise 10")
             ops += ["tick", "ready 100 0", "tick", "tick", "destroy", "end"]
             out.append(ops)
+    return out + exhaustive_multi(prop)
+
+
+def exhaustive_multi(prop):
+    """Several toplevel instances, small scope (inside what the default loop supports: signals on the observer only).
+
+    C18: the observer O (instance 0, or a later instance after 0 was destroyed) has one or two signal watchers;
+         a second instance is {never built, built before the watch, built after the watch} and then
+         {left alone, given a due timer and an iteration, destroyed, destroyed and rebuilt};
+         the signal arrives {before the observer's iteration, inside its wait} x {a timer of the observer due or not};
+         then two iterations of the observer, everything destroyed in either order.
+    C17: two instances with a timer / deferred callback / io watch each (all flag combinations asking for notifications),
+         one iteration each, destroyed in either order: every instance's remaining watches are notified by its own
+         destruction only.
+    """
+    out = []
+    if prop == "C18":
+        for obs, second, what, sig, timer, two in itertools.product(
+                ("first", "rebuilt", "third"), ("none", "before", "after"), ("alone", "tick", "destroy", "rebuild"),
+                ("pre", "in"), (0, 1), (0, 1)):
+            if second == "none" and what != "alone":
+                continue
+            ops = ["new " + prop]
+            o = 0
+            if obs == "rebuilt":
+                ops += ["destroy", "inst 0"]                   # a fresh instance 0 becomes the observer again
+            elif obs == "third":
+                ops += ["inst 1", "use 0", "destroy", "inst 2"]  # 1 lives on and never observes; 2 takes over
+                o = 2
+            other = 1 if obs != "third" else 0
+            if obs == "third" and second != "none":
+                # the second instance of this scenario is number 0, built anew
+                pass
+            def build_second():
+                r = [f"inst {other}"]
+                if what == "tick":
+                    r += ["timer 20 0 6", "tick"]
+                elif what == "destroy":
+                    r += ["later 20 4", "tick", "destroy"]
+                elif what == "rebuild":
+                    r += ["destroy", f"inst {other}", "io 20 101 1 6"]
+                return r + [f"use {o}"]
+            if second == "before":
+                ops += build_second()
+            ops.append("signal 3 23 2")
+            if two:
+                ops.append("signal 4 23 6")
+            if second == "after":
+                ops += build_second()
+            if timer:
+                ops.append("timer 0 0 0")
+            ops.append("raise 23" if sig == "pre" else "inpoll 23")
+            ops += ["tick", "tick"]
+            alive = [o]
+            if second != "none" and what != "destroy":
+                alive.append(other)
+            if obs == "third":
+                if 1 not in alive: alive.append(1)
+            for i in (alive if timer else alive[::-1]):
+                ops += [f"use {i}", "destroy"]
+            ops.append("end")
+            out.append(ops)
+    else:
+        KINDS = {"timer": lambda k, f: f"timer {k} 5 {f}", "due": lambda k, f: f"timer {k} 0 {f}",
+                 "later": lambda k, f: f"later {k} {f}", "io": lambda k, f: f"io {k} 100 1 {f}"}
+        for k0, k1, f0, f1, order in itertools.product(KINDS, KINDS, (0, 2, 4, 6), (4, 6), (0, 1)):
+            ops = ["new " + prop, KINDS[k0](0, f0), KINDS["timer"](1, f1), "inst 1", KINDS[k1](2, f1), KINDS["later"](3, f0),
+                   "later 4 0", "tick", "use 0", "tick"]
+            for i in ((0, 1) if order else (1, 0)):
+                ops += [f"use {i}", "destroy"]
+            ops.append("end")
+            out.append(ops)
     return out
 
 
@@ -492,6 +564,11 @@ if a.tier == "exhaustive":
              "C18: {timer due} x {later} x {fd ready} x {signal none/before/inside wait/from timer cb/from later cb} x "
              "{errno set by timer cb/later cb/not} x {1 watcher, 2, first cancels second, first cancels itself, "
              "a watcher that calls tickit_stop, a second lower-numbered signal whose watcher calls tickit_stop}")
+    bound += ("; several toplevel instances: {observer = first instance / instance 0 rebuilt / a third instance after the first was destroyed} x "
+              "{second instance never built / built before / after the signal watch} x {left alone / iterated / destroyed / destroyed and rebuilt} x "
+              "{signal before the iteration / inside the wait} x {observer's timer due} x {1, 2 watchers}"
+              if a.prop == "C18" else
+              "; two instances x watch kinds {timer, due timer, later, io} x notification flags x destruction order")
     for h in hs:
         lines += h
     with open(a.out, "w") as f:
